@@ -89,6 +89,7 @@ def setup(cfg):
             r.G.nodes[u]['rw'] = x
             r.nw[u] = x
     r.stub = RandomStub(ties=cfg.get('ties', False), max_expo=cfg.get('max_expo'),
+                        truncate=cfg.get('truncate', False),
                         max_draws=cfg.get('max_draws', 16 * max(r.N, 2) if 'SIR' in cfg.get('entry', '') else 400),
                         max_uniform_per_step=cfg.get('max_unif', 2 + cfg.get('R', 1)))
     install_sim(r.stub, NPProxy())
